@@ -83,7 +83,7 @@ def is_result_wrapper(t):
 def run(ctx):
     core = ctx.core
     S.TEMPLATES = lambda n: ";".join(H.template_text(t) for t in H.macro_templates(core, n)) or None
-    S.INLINE = None
+    S.INLINE = S.default_inline(core)
     C = B.Copies(core)
     ctx.not_decided += ["IEEE semantics of each primitive", "that operands are evaluated eagerly before the operator (both always are)"]
     variants = C.variants
